@@ -361,3 +361,75 @@ def add_wrappers(reg):
     if inst:
         reg.specs[(inst[0].file, inst[0].qual)] = inst[0]
     return [s for s in base if not isinstance(s, WrapIfNode)] + inst
+
+
+# ---- MetadorGroup._destroy_meta: the unlink flag reaches every node below (C06) -------------------------------
+
+from pyvc.api import LoopSpec  # noqa: E402
+from pyvc.containers import BOOL, ClassDecl, SMap, SRef, SSeq, TRef  # noqa: E402
+
+ClassDecl("ChildNodeRef", {})
+
+
+class DestroyMetaGroup(FnSpec):
+    file = "container/wrappers.py"
+    qual = "MetadorGroup._destroy_meta"
+    props = ("C06",)
+
+    def init(self):
+        def inv(cx, env, it):
+            a = cx.ghost["dm"]
+            log = a.self.fields["destroyed_with_flag"]
+            ch = a.children
+            j = z3.Int(fresh_name("dj"))
+            c = z3.Const(fresh_name("dc"), z3.DeclareSort("Ref"))
+            return [
+                ("children-so-far-destroyed-with-the-same-flag", z3.ForAll([j], z3.Implies(z3.And(0 <= j, j < it.i), z3.And(log.has(ch.at_term(j)), log.get_term(ch.at_term(j)) == a.flag)))),
+                ("nothing-else-destroyed", z3.ForAll([c], z3.Implies(log.has(c), z3.Exists([j], z3.And(0 <= j, j < it.i, ch.at_term(j) == c))))),
+                ("never-with-another-flag", z3.ForAll([c], z3.Implies(log.has(c), log.get_term(c) == a.flag))),
+            ]
+
+        self.loops[0] = LoopSpec(inv, modifies=["child"], havoc_inplace=["self.destroyed_with_flag"])
+
+    def setup(self, cx):
+        o = SObj("MetadorGroupForDestroy", name="self")
+        o.fields["destroyed_with_flag"] = SMap(TRef("ChildNodeRef"), BOOL, name="destroyed")  # ghost: child -> flag it was destroyed with
+        children = SSeq.fresh(TRef("ChildNodeRef"), "children")
+        o.children = children
+        unl = z3.Bool("unlink")
+        shape = cx.choose(2)  # called with the flag / with the default
+        a = A(self=o) if shape == 1 else A(self=o, _unlink=SBool(unl))
+        a.flag = z3.BoolVal(True) if shape == 1 else unl
+        a.children = children
+        cx.ghost["dm"] = a
+        return a
+
+    def ensures(self, cx, a, res):
+        log = a.self.fields["destroyed_with_flag"]
+        ch = a.children
+        j = z3.Int(fresh_name("ej"))
+        own = [e for e in cx.fx if e[0] == "destroy-own-meta"]
+        flag_ok = z3.BoolVal(False)
+        if len(own) == 1:
+            f = own[0][1]
+            flag_ok = (f.t == a.flag) if isinstance(f, SBool) else z3.BoolVal(f) == a.flag
+        return [
+            ("own-metadata-destroyed-with-the-flag", z3.And(z3.BoolVal(len(own) == 1), flag_ok), "the node's own metadata is destroyed once, with the requested unlink flag"),
+            ("every-child-destroyed-with-the-same-flag", z3.ForAll([j], z3.Implies(z3.And(0 <= j, j < ch.n), z3.And(log.has(ch.at_term(j)), log.get_term(ch.at_term(j)) == a.flag))), "the flag is passed on to EVERY child (and by recursion to every node below): a copy made without metadata never unlinks the originals' TOC entries, a delete always does"),
+        ]
+
+
+def add_destroy(reg):
+    reg.set_class_home("MetadorGroupForDestroy", "container/wrappers.py", "MetadorGroup")
+    reg.method_bindings[("MetadorGroup", "super._destroy_meta")] = lambda cx, o, _unlink=True: cx.effect("destroy-own-meta", _unlink)
+    reg.method_bindings[("MetadorGroupForDestroy", "values")] = lambda cx, o: o.children
+
+    def child_destroy(cx, child, _unlink=True):
+        o = cx.ghost["dm"].self
+        log = o.fields["destroyed_with_flag"]
+        log.py_setitem(cx, child, _unlink)
+
+    reg.method_bindings[("ChildNodeRef", "_destroy_meta")] = child_destroy
+    s = DestroyMetaGroup()
+    reg.add(s)
+    return [s]
